@@ -1,0 +1,85 @@
+// Verification hooks, compiled only with the cargo feature `verif`.
+//
+// Every hook is a no-op unless a [`Handler`] has been installed with [`install`].
+// The hooks never change what the engine does on their own; an installed handler may
+// observe (events, crash points), delay (points) or inject faults (fault).
+
+use std::path::Path;
+use std::sync::{Arc, RwLock};
+
+use futures::future::BoxFuture;
+
+/// Fault kinds that can be injected into an operator's output loop.
+#[derive(Debug, Clone, Copy, PartialEq, Eq)]
+pub enum Fault {
+    Error,
+    Panic,
+}
+
+/// Receiver of hook calls. All methods have no-op defaults.
+pub trait Handler: Send + Sync + 'static {
+    /// Synchronous trace event. Called under the lock that protects the state it describes.
+    fn event(&self, _name: &'static str, _args: &[u64]) {}
+    /// Asynchronous yield point, placed only between critical sections / at existing
+    /// suspension points. The returned future is awaited by the caller.
+    fn point(&self, _name: &'static str, _args: &[u64]) -> Option<BoxFuture<'static, ()>> {
+        None
+    }
+    /// A persistence step on `path` is about to happen / has happened.
+    fn crash_point(&self, _step: &'static str, _path: &Path) {}
+    /// Called before operator `op` hands its `chunk_idx`-th item to its consumers.
+    /// `is_end` is true for the call made after the operator's stream ended.
+    fn fault(&self, _op: &str, _chunk_idx: usize, _is_end: bool) -> Option<Fault> {
+        None
+    }
+    /// Rules applied by one egg run of the optimizer: (rule name, number of applications).
+    fn rules_applied(&self, _stage_rules: &[(String, usize)]) {}
+    /// Whether the optimizer may use the rule.
+    fn rule_allowed(&self, _name: &str) -> bool {
+        true
+    }
+}
+
+static HANDLER: RwLock<Option<Arc<dyn Handler>>> = RwLock::new(None);
+
+/// Install (or remove) the process-wide handler.
+pub fn install(handler: Option<Arc<dyn Handler>>) {
+    *HANDLER.write().unwrap() = handler;
+}
+
+fn get() -> Option<Arc<dyn Handler>> {
+    HANDLER.read().unwrap().clone()
+}
+
+pub fn event(name: &'static str, args: &[u64]) {
+    if let Some(h) = get() {
+        h.event(name, args);
+    }
+}
+
+pub async fn point(name: &'static str, args: &[u64]) {
+    let fut = get().and_then(|h| h.point(name, args));
+    if let Some(fut) = fut {
+        fut.await;
+    }
+}
+
+pub fn crash_point(step: &'static str, path: impl AsRef<Path>) {
+    if let Some(h) = get() {
+        h.crash_point(step, path.as_ref());
+    }
+}
+
+pub fn fault(op: &str, chunk_idx: usize, is_end: bool) -> Option<Fault> {
+    get().and_then(|h| h.fault(op, chunk_idx, is_end))
+}
+
+pub fn rules_applied(rules: &[(String, usize)]) {
+    if let Some(h) = get() {
+        h.rules_applied(rules);
+    }
+}
+
+pub fn rule_allowed(name: &str) -> bool {
+    get().map(|h| h.rule_allowed(name)).unwrap_or(true)
+}
